@@ -735,7 +735,9 @@ class _InlineNewHelpers(_InlineMethods):
             for m in cls.body:
                 if isinstance(m, ast.FunctionDef) and (cls.name + '.' + m.name) not in self.known and cls.name in {k.split('.')[0] for k in self.known if '.' in k}:
                     new_methods.setdefault(cls.name, {})[m.name] = m
-        if not self.new_funcs and not new_methods and not self.imported_new and not self.module_aliases:
+        self.local_objects = {}
+        self._find_local_objects(classes)
+        if not self.new_funcs and not new_methods and not self.imported_new and not self.module_aliases and not self.local_objects:
             return False
         self.touched = {}
         self.expanded = set()
@@ -759,6 +761,7 @@ class _InlineNewHelpers(_InlineMethods):
                 for m in cls.body:
                     if isinstance(m, ast.FunctionDef):
                         m.body = self._block(m.body, m, self.methods)
+        self._dissolve_local_objects()
         self._drop_dead_helpers(classes, new_methods)
         records = _record_types(self.tree)
         for fn in self.touched.values():
@@ -1008,7 +1011,233 @@ class _InlineNewHelpers(_InlineMethods):
             # from a classmethod only a static helper can be reached through `cls.`
             if len(host.decorator_list) == 1 and isinstance(host.decorator_list[0], ast.Name) and host.decorator_list[0].id == 'classmethod' and self._is_static(m):
                 return m, False
+        if isinstance(call.func, ast.Attribute) and isinstance(call.func.value, ast.Name) and call.func.value.id in self.local_objects.get(id(host), {}):
+            info = self.local_objects[id(host)][call.func.value.id]
+            if call.func.attr in info['methods']:
+                return info['methods'][call.func.attr], True
         return None
+
+    def _find_local_objects(self, classes):
+        """a NEW small class (state with a few methods) of which a function makes an object that never leaves it -- bound once by `x = C(...)`,
+        afterwards only `x.field` and `x.method(...)` -- is the function's own locals in another dress: its methods are expanded like helpers
+        (with x as the receiver) and afterwards every field is a plain variable again"""
+        known_classes = {k[:-1] for k in self.known if k.endswith('.')}
+        infos = {}
+        for cls in classes:
+            if cls.name in known_classes or cls.decorator_list or cls.keywords:
+                continue
+            fields = None
+            if len(cls.bases) == 1 and isinstance(cls.bases[0], ast.Call):
+                b = cls.bases[0]
+                if ((isinstance(b.func, ast.Name) and b.func.id == 'namedtuple') or (isinstance(b.func, ast.Attribute) and b.func.attr == 'namedtuple')) and len(b.args) == 2 and not b.keywords:
+                    spec = b.args[1]
+                    if isinstance(spec, (ast.List, ast.Tuple)) and all(isinstance(e, ast.Constant) and isinstance(e.value, str) for e in spec.elts):
+                        fields = [e.value for e in spec.elts]
+                    elif isinstance(spec, ast.Constant) and isinstance(spec.value, str):
+                        fields = spec.value.replace(',', ' ').split()
+                if fields is None:
+                    continue
+                kind = 'record'
+            elif not cls.bases or (len(cls.bases) == 1 and isinstance(cls.bases[0], ast.Name) and cls.bases[0].id == 'object'):
+                kind = 'plain'
+            else:
+                continue
+            ok = True
+            methods = {}
+            for st in cls.body:
+                if isinstance(st, ast.Expr) and isinstance(st.value, ast.Constant):
+                    continue
+                if isinstance(st, ast.Pass):
+                    continue
+                if isinstance(st, ast.Assign) and len(st.targets) == 1 and isinstance(st.targets[0], ast.Name) and st.targets[0].id == '__slots__':
+                    continue
+                if isinstance(st, ast.FunctionDef) and not st.decorator_list and st.args.args and not st.args.vararg and not st.args.kwarg and not st.args.posonlyargs:
+                    methods[st.name] = st
+                    continue
+                ok = False
+            if not ok:
+                continue
+            init = methods.pop('__init__', None)
+            if any(k.startswith('__') and k.endswith('__') for k in methods) or (kind == 'record' and init is not None) or (kind == 'plain' and init is None):
+                continue
+            stored = set()
+            for m in list(methods.values()) + ([init] if init else []):
+                recv = m.args.args[0].arg
+                if any(isinstance(x, (ast.Yield, ast.YieldFrom, ast.Await, ast.Global, ast.Nonlocal, ast.Lambda)) or (isinstance(x, ast.FunctionDef) and x is not m) for x in ast.walk(m)):
+                    ok = False
+                attr_values = {id(x.value) for x in ast.walk(m) if isinstance(x, ast.Attribute)}
+                for x in ast.walk(m):
+                    if isinstance(x, ast.Name) and x.id == recv and (not isinstance(x.ctx, ast.Load) or id(x) not in attr_values):
+                        ok = False      # the object itself is handed on, or the receiver is rebound
+                    if isinstance(x, ast.Attribute) and isinstance(x.value, ast.Name) and x.value.id == recv and isinstance(x.ctx, (ast.Store, ast.Del)):
+                        stored.add(x.attr)
+            if not ok:
+                continue
+            init_vals = None
+            if kind == 'plain':
+                # the constructor only fills fields, one plain statement each
+                recv = init.args.args[0].arg
+                init_vals = []
+                body = [b for b in init.body if not (isinstance(b, ast.Expr) and isinstance(b.value, ast.Constant))]
+                for b in body:
+                    if isinstance(b, ast.Assign) and len(b.targets) == 1 and isinstance(b.targets[0], ast.Attribute) and isinstance(b.targets[0].value, ast.Name) and \
+                            b.targets[0].value.id == recv and not any(isinstance(y, ast.Name) and y.id == recv for y in ast.walk(b.value)):
+                        init_vals.append((b.targets[0].attr, b.value))
+                    else:
+                        ok = False
+                if not ok or len({f for f, _v in init_vals}) != len(init_vals) or init.args.kwonlyargs:
+                    continue
+                fields = [f for f, _v in init_vals]
+                if stored - set(fields):
+                    continue            # a field that only some method creates
+            else:
+                if stored:
+                    continue            # a tuple's fields are not assigned
+            if set(fields) & set(methods):
+                continue
+            # every use of the receiver in a method is a field or a method of the class
+            for m in methods.values():
+                recv = m.args.args[0].arg
+                for x in ast.walk(m):
+                    if isinstance(x, ast.Attribute) and isinstance(x.value, ast.Name) and x.value.id == recv and x.attr not in fields and x.attr not in methods:
+                        ok = False
+            if not ok:
+                continue
+            infos[cls.name] = {'cls': cls, 'kind': kind, 'fields': fields, 'methods': methods, 'init': init, 'init_vals': init_vals}
+        if not infos:
+            return
+        # the class is used for nothing but making such objects
+        uses = {}
+        for x in ast.walk(self.tree):
+            if isinstance(x, ast.Name) and x.id in infos:
+                uses[x.id] = uses.get(x.id, 0) + 1
+            elif isinstance(x, ast.Constant) and isinstance(x.value, str) and x.value in infos and not any(x is b.args[0] for b in infos[x.value]['cls'].bases if isinstance(b, ast.Call) and b.args):
+                uses[x.value] = uses.get(x.value, 0) + 100
+        hosts = [fn for fn in self.tree.body if isinstance(fn, ast.FunctionDef)] + [m for c in classes for m in c.body if isinstance(m, ast.FunctionDef) and c.name not in infos]
+        found = {}
+        for G in hosts:
+            stores = _stores(G)
+            for st in ast.walk(G):
+                if isinstance(st, ast.Assign) and len(st.targets) == 1 and isinstance(st.targets[0], ast.Name) and isinstance(st.value, ast.Call) and \
+                        isinstance(st.value.func, ast.Name) and st.value.func.id in infos and stores.get(st.targets[0].id) == 1:
+                    x = st.targets[0].id
+                    info = infos[st.value.func.id]
+                    if any(isinstance(a, ast.Starred) for a in st.value.args) or any(k.arg is None for k in st.value.keywords):
+                        continue
+                    attr_values = {id(a.value): a for a in ast.walk(G) if isinstance(a, ast.Attribute)}
+                    call_funcs = {id(c.func) for c in ast.walk(G) if isinstance(c, ast.Call)}
+                    good = True
+                    for y in ast.walk(G):
+                        if isinstance(y, ast.Name) and y.id == x and y is not st.targets[0]:
+                            a = attr_values.get(id(y))
+                            if a is None:
+                                good = False
+                            elif a.attr in info['methods']:
+                                good = good and id(a) in call_funcs and isinstance(a.ctx, ast.Load)
+                            elif a.attr in info['fields']:
+                                good = good and (isinstance(a.ctx, ast.Load) or info['kind'] == 'plain')
+                            else:
+                                good = False
+                    if good:
+                        found.setdefault(id(G), {})[x] = dict(info, stmt=st, host=G)
+        # all the mentions of the class are such constructions (plus its own definition's name in the namedtuple call)
+        n_found = {}
+        for objs in found.values():
+            for o in objs.values():
+                n_found[o['cls'].name] = n_found.get(o['cls'].name, 0) + 1
+        for gid, objs in found.items():
+            for x, o in objs.items():
+                if uses.get(o['cls'].name, 0) == n_found[o['cls'].name]:
+                    self.local_objects.setdefault(gid, {})[x] = o
+
+    def _dissolve_local_objects(self):
+        """after the methods were expanded: when the object is only looked at through its fields, the fields are variables"""
+        import copy
+        for gid, objs in self.local_objects.items():
+            for x, o in objs.items():
+                G, st = o['host'], o['stmt']
+                attr_values = {id(a.value): a for a in ast.walk(G) if isinstance(a, ast.Attribute)}
+                mentions = [y for y in ast.walk(G) if isinstance(y, ast.Name) and y.id == x and y is not st.targets[0]]
+                if any(id(y) not in attr_values or attr_values[id(y)].attr not in o['fields'] for y in mentions):
+                    continue            # a method call is left: the object stays an object
+                if any(isinstance(f_, (ast.FunctionDef, ast.Lambda)) and f_ is not G and any(isinstance(y, ast.Name) and y.id == x for y in ast.walk(f_)) for f_ in ast.walk(G)):
+                    continue
+                call = st.value
+                # the constructor's arguments by parameter
+                if o['kind'] == 'record':
+                    pnames = list(o['fields'])
+                    defaults = {}
+                else:
+                    init = o['init']
+                    pnames = [a.arg for a in init.args.args[1:]]
+                    defaults = dict(zip(pnames[len(pnames) - len(init.args.defaults):], init.args.defaults)) if init.args.defaults else {}
+                if len(call.args) > len(pnames):
+                    continue
+                bound = dict(zip(pnames, call.args))
+                bad = False
+                for k in call.keywords:
+                    if k.arg not in pnames or k.arg in bound:
+                        bad = True
+                    bound[k.arg] = k.value
+                for p_ in pnames:
+                    if p_ not in bound:
+                        if p_ in defaults:
+                            bound[p_] = copy.deepcopy(defaults[p_])
+                        else:
+                            bad = True
+                if bad:
+                    continue
+                if o['kind'] == 'record':
+                    vals = [(f_, bound[f_]) for f_ in bound]           # in the order the call evaluates them
+                else:
+                    # each parameter is read at most once, in the order the arguments are evaluated (or the argument is a plain name or constant)
+                    order = []
+                    for f_, v in o['init_vals']:
+                        for y in ast.walk(v):
+                            if isinstance(y, ast.Name) and y.id in bound:
+                                order.append(y.id)
+                    simple = {p_ for p_, a in bound.items() if isinstance(a, (ast.Name, ast.Constant)) or (isinstance(a, (ast.List, ast.Dict, ast.Tuple, ast.Set)) and not list(ast.iter_child_nodes(a))[:-1])}
+                    heavy = [p_ for p_ in order if p_ not in simple]
+                    callorder = [p_ for p_ in bound if p_ not in simple]
+                    if len(set(heavy)) != len(heavy) or heavy != [p_ for p_ in callorder if p_ in heavy] or set(callorder) - set(heavy):
+                        continue
+                    vals = [(f_, _Subst({p_: a for p_, a in bound.items()}).visit(copy.deepcopy(v))) for f_, v in o['init_vals']]
+                # names of the field variables: the field's own name where the function has no such name
+                taken = {y.id for y in ast.walk(G) if isinstance(y, ast.Name)} | {a.arg for a in G.args.posonlyargs + G.args.args + G.args.kwonlyargs}
+                stored_fields = {a.attr for a in attr_values.values() if isinstance(a.value, ast.Name) and a.value.id == x and isinstance(a.ctx, (ast.Store, ast.Del))}
+                gstores = _stores(G)
+                names = {}
+                new_stmts = []
+                for f_, v in vals:
+                    if f_ not in taken:
+                        names[f_] = f_
+                    elif isinstance(v, ast.Name) and v.id == f_ and f_ not in stored_fields and gstores.get(f_) == 1:
+                        names[f_] = f_      # the field IS the function's variable of that name
+                        continue
+                    else:
+                        names[f_] = '%s__%s' % (x, f_)
+                    taken.add(names[f_])
+                    new_stmts.append(ast.copy_location(ast.Assign(targets=[ast.Name(id=names[f_], ctx=ast.Store())], value=v, type_comment=None), st))
+
+                class _A(ast.NodeTransformer):
+                    def visit_Attribute(self_, node):
+                        self_.generic_visit(node)
+                        if isinstance(node.value, ast.Name) and node.value.id == x and node.attr in names:
+                            return ast.copy_location(ast.Name(id=names[node.attr], ctx=node.ctx), node)
+                        return node
+                _A().visit(G)
+                for y in ast.walk(G):
+                    for fld in ('body', 'orelse', 'finalbody'):
+                        lst = getattr(y, fld, None)
+                        if isinstance(lst, list) and st in lst:
+                            i = lst.index(st)
+                            lst[i:i + 1] = new_stmts or [ast.copy_location(ast.Pass(), st)]
+                for n_ in new_stmts:
+                    ast.fix_missing_locations(n_)
+                self.touched[id(G)] = G
+                # the class is no longer part of the analysed program once nothing mentions it
+                if not any(isinstance(y, ast.Name) and y.id == o['cls'].name for y in ast.walk(self.tree)):
+                    self.tree.body = [b for b in self.tree.body if b is not o['cls']]
 
     def _block(self, stmts, host, methods):
         out = []
@@ -1199,7 +1428,10 @@ class _InlineNewHelpers(_InlineMethods):
         subst = {}
         helper_names = {x.id for b in body for x in ast.walk(b) if isinstance(x, ast.Name)} | set(params)
         if has_recv:
-            mapping[recv_m] = host.args.args[0].arg
+            if isinstance(call.func, ast.Attribute) and isinstance(call.func.value, ast.Name) and call.func.value.id in self.local_objects.get(id(host), {}):
+                mapping[recv_m] = call.func.value.id
+            else:
+                mapping[recv_m] = host.args.args[0].arg
         pre = []
         for p_ in params:
             a = bound[p_]
